@@ -22,8 +22,8 @@
 #define ASSIGNS(...)    __CPROVER_assigns(__VA_ARGS__)
 #define OLD(e)          __CPROVER_old(e)
 #define RET             __CPROVER_return_value
-#define R_OK(p, n)      __CPROVER_r_ok((p), (n))
-#define W_OK(p, n)      __CPROVER_w_ok((p), (n))
+#define RD_OK(p, n)      __CPROVER_r_ok((p), (n))
+#define WR_OK(p, n)      __CPROVER_w_ok((p), (n))
 #define RW_OK(p, n)     __CPROVER_rw_ok((p), (n))
 #define SEPARATE(a, b)  (!__CPROVER_same_object((a), (b)))
 #define OBJ_WHOLE(p)    __CPROVER_object_whole(p)
@@ -91,4 +91,5 @@ typedef signed __CPROVER_bitvector[320] sbv320;
 #error "compile with -DVERIF_CBMC or -DVERIF_NATIVE"
 #endif
 
+#include "ghost.h"
 #endif
